@@ -39,6 +39,12 @@ CLAIMED = {
     "C17": ("runtime monitoring: RMAXEventListener probe validates every experienced step against the model and records the experience; oracle rebuilds the empirical model from the first m samples of each pair and checks optimism / empirical Bellman equation / greedy policy on the returned Q",
             "Held-on-K-executions over sampled histories (seeds), thresholds and episode counts. Exploration: all-histories property.",
             "rmax taken from np.max(mdp.reward_matrix) (the algorithm's asserted precondition); float64", "§4 C17"),
+    "C14": ("runtime monitoring: trace checker over every trajectory returned by Policy.run_on / POMDPPolicy.run_on (step validity against the model, chaining, agent-state update, stop condition); Policy.run_on wrapped as called inside Policy.evaluate_on to capture its own roll-outs; averages recomputed from the captured traces",
+            "Held-on-K-executions over sampled histories (seeds), caps and policies. Exploration: all-histories property.",
+            "model = generator spec dictionaries; a belief-tracking policy is only started from states its initial belief allows", "§4 C14"),
+    "C15": ("runtime monitoring: boundary recorder on augment() for sampled/all subsets of overridden components; trajectory checker on Option.run_on; Option.run_on wrapped as called by SemiMarkovDecisionProcess.run_simulations to capture its own simulations, outcome distribution recomputed from the captures with the base discount; sub-task plan vs reference solution",
+            "Held-on-K-executions over generated base MDPs, override subsets, options, step limits and seeds. Exploration: all-inputs/all-histories property.",
+            "trusts mon/ref/mdp.py for the sub-task solution; roll-out step validity itself is C14's subject", "§4 C15"),
 }
 
 PENDING_REASON = "check not built yet in this round (design in DESIGN.md §4); not claimed until its monitor exists and is silent on the unchanged tree"
